@@ -10,6 +10,8 @@ import (
 	"github.com/spf13/cobra"
 )
 
+var divideoutprefix string
+
 // divideCmd represents the divide command
 var divideCmd = &cobra.Command{
 	Use:   "divide",
@@ -42,7 +44,7 @@ gotree divide -i trees.nw -o prefix_
 				io.LogError(t.Err)
 				return t.Err
 			}
-			if f, err = openWriteFile(fmt.Sprintf("%s_%03d.nw", outtreefile, i)); err != nil {
+			if f, err = openWriteFile(fmt.Sprintf("%s_%03d.nw", divideoutprefix, i)); err != nil {
 				io.LogError(err)
 				return
 			}
@@ -57,5 +59,5 @@ gotree divide -i trees.nw -o prefix_
 func init() {
 	RootCmd.AddCommand(divideCmd)
 	divideCmd.PersistentFlags().StringVarP(&intreefile, "input", "i", "stdin", "Input tree(s) file")
-	divideCmd.PersistentFlags().StringVarP(&outtreefile, "output", "o", "prefix", "Divided trees output file prefix")
+	divideCmd.PersistentFlags().StringVarP(&divideoutprefix, "output", "o", "prefix", "Divided trees output file prefix")
 }
